@@ -5,14 +5,19 @@ package pheap
 import (
 	"fmt"
 	"math"
+	"reflect"
 	"sort"
+	"strconv"
+	"strings"
 
 	"github.com/creachadair/mds/heapq"
 	"verif/devheap"
+	"verif/elem"
 	"verif/vk"
 )
 
-// Elem is the element type: ordered by V only, identified by ID, so the
+// Elem is the element type of the reference model and, for the element kind
+// "", of the real queue: ordered by V only, identified by ID, so the
 // conservation oracle tracks exact identities while V has many duplicates.
 type Elem struct {
 	V  int `json:"v"`
@@ -45,6 +50,64 @@ func ascMag(a, b Elem) int {
 }
 func descMag(a, b Elem) int { return ascMag(b, a) }
 
+// ElemKinds lists the element kinds for the queue and for Sort besides "".
+// The comparison always is the caller's function, so every kind of package
+// elem that can stand for the harness's values is admitted (int16 and float64
+// add nothing to code that never looks into its elements).
+var ElemKinds = []string{elem.Int, elem.Str, elem.Wide, elem.Ptr, elem.Bytes, elem.Any}
+
+// ownKit is the kit of the element kind "": the queue holds the Elems of the
+// reference model themselves.
+func ownKit() elem.Kit[Elem] {
+	return elem.Kit[Elem]{Kind: "", HasID: true,
+		Make: func(v, id int) Elem { return Elem{V: v, ID: id} },
+		V:    func(e Elem) int { return e.V },
+		ID:   func(e Elem) int { return e.ID },
+		Same: func(a, b Elem) bool { return a == b },
+		Cmp:  asc,
+	}
+}
+
+func kindLabel(kind string) string {
+	if kind == "" {
+		return "elem=own"
+	}
+	return "elem=" + kind
+}
+
+// conv converts what came out of the library back to an Elem of the model
+// (ID only on request: it costs a table lookup for the pointer kinds).  ok is
+// false when x is nothing the harness could have supplied (a nil pointer, an
+// empty interface, foreign bytes); the kits treat those as harness errors.
+func conv[T any](k elem.Kit[T], x T, withID bool) (e Elem, ok bool) {
+	defer func() {
+		if recover() != nil {
+			e, ok = Elem{}, false
+		}
+	}()
+	e.V = k.V(x)
+	if withID && k.HasID {
+		e.ID = k.ID(x)
+	}
+	return e, true
+}
+
+// show renders an element for messages (never a raw pointer or raw bytes).
+func show[T any](k elem.Kit[T], x T) string {
+	e, ok := conv(k, x, true)
+	switch {
+	case !ok && isZero(x):
+		return "<the zero value of the element type>"
+	case !ok:
+		return fmt.Sprintf("<%v: not an element the harness supplied>", x)
+	case !k.HasID:
+		return strconv.Itoa(e.V)
+	}
+	return e.String()
+}
+
+func isZero[T any](x T) bool { return reflect.ValueOf(&x).Elem().IsZero() }
+
 // HOp is one step of a heap history.
 type HOp struct {
 	Kind string `json:"k"`
@@ -61,6 +124,7 @@ type HeapCase struct {
 	Spare   int    `json:"spare,omitempty"`
 	Update  bool   `json:"update,omitempty"` // install an update callback from the start
 	Mag     bool   `json:"mag,omitempty"`    // comparators return scaled differences instead of -1/0/+1
+	Elem    string `json:"elem,omitempty"`   // element kind of the real queue ("" = Elem itself), see ElemKinds
 	Ops     []HOp  `json:"ops"`
 }
 
@@ -70,27 +134,31 @@ type devHeap struct {
 	alive bool // still coincides with the real queue on everything observed
 }
 
-func sameSeq(a, b []Elem) bool {
+// sameSeq compares two array orders; a kind without identity shows values only.
+func sameSeq(a, b []Elem, ident bool) bool {
 	if len(a) != len(b) {
 		return false
 	}
 	for i := range a {
-		if a[i] != b[i] {
+		if a[i] != b[i] && (ident || a[i].V != b[i].V) {
 			return false
 		}
 	}
 	return true
 }
 
-type heapRun struct {
+// heapBook is the part of a run that does not depend on the queue's element
+// type: the reference model in Elems, the exposure of the known findings with
+// their deviation models, and the bookkeeping for NT and the classes.
+type heapBook struct {
 	c        HeapCase
 	checkPos bool // C06 clauses
 	o        *vk.Obs
-	q        *heapq.Queue[Elem]
+	ident    bool // the element kind carries identities (Kit.HasID)
 	cmp      func(a, b Elem) int
 	descNow  bool
 	custom   bool         // the current comparison is one of the custom orders of "reorderTo"
-	held     map[int]Elem // by ID
+	held     map[int]Elem // by ID (for a kind without identity the IDs stay on the harness's side)
 	nextID   int
 	step     int
 
@@ -104,6 +172,7 @@ type heapRun struct {
 	lastPos map[int]int
 	tracked map[int]bool
 	moves   map[int]int
+	shadow  map[int]int // kinds without identity: the value named by the last report for each position
 	cbBad   string
 	ntPos   bool
 
@@ -114,28 +183,133 @@ type heapRun struct {
 	nt               bool
 	interiorRemoves  int
 	reorders         int
+	twins            int // elements supplied while an equal-valued one was held
 }
 
-func (r *heapRun) errf(format string, args ...any) string {
+// heapRun is the interpreter for one element type T: every element that
+// crosses the library boundary goes through the kit.
+type heapRun[T any] struct {
+	*heapBook
+	kit   elem.Kit[T]
+	q     *heapq.Queue[T]
+	heldT map[int]T // by ID: the very elements handed to the queue (kinds with identity)
+}
+
+func (r *heapBook) errf(format string, args ...any) string {
 	op := "start"
 	if r.step >= 0 && r.step < len(r.c.Ops) {
 		op = fmt.Sprintf("op#%d %s(a=%d,vs=%v)", r.step, r.c.Ops[r.step].Kind, r.c.Ops[r.step].A, r.c.Ops[r.step].Vs)
 	} else if r.step >= len(r.c.Ops) {
 		op = "final drain"
 	}
+	if r.c.Elem != "" {
+		op += " [" + kindLabel(r.c.Elem) + "]"
+	}
 	return fmt.Sprintf("%s: %s", op, fmt.Sprintf(format, args...))
 }
 
-func (r *heapRun) contents() []Elem {
-	var out []Elem
-	r.q.Each(func(e Elem) bool { out = append(out, e); return true })
+func (r *heapRun[T]) contents() []T {
+	var out []T
+	r.q.Each(func(e T) bool { out = append(out, e); return true })
 	return out
 }
 
-func (r *heapRun) newElem(v int) Elem { r.nextID++; return Elem{V: v, ID: r.nextID} }
+func (r *heapRun[T]) show(x T) string { return show(r.kit, x) }
+
+// heldWithValue returns the smallest ID among the held elements of value v.
+func (r *heapBook) heldWithValue(v int) (int, bool) {
+	id, ok := 0, false
+	for _, h := range r.held {
+		if h.V == v && (!ok || h.ID < id) {
+			id, ok = h.ID, true
+		}
+	}
+	return id, ok
+}
+
+// known converts x and reports whether it is held: for a kind with identity
+// the very element that was handed in under that ID (Kit.Same), otherwise
+// some element of that value.
+func (r *heapRun[T]) known(x T) (Elem, bool) {
+	e, ok := conv(r.kit, x, true)
+	if !ok {
+		return e, false
+	}
+	if !r.ident {
+		_, ok := r.heldWithValue(e.V)
+		return e, ok
+	}
+	h, held := r.held[e.ID]
+	return e, held && h == e && r.kit.Same(r.heldT[e.ID], x)
+}
+
+// whyNot says in which way x fails known.
+func (r *heapRun[T]) whyNot(x T) string {
+	e, ok := conv(r.kit, x, true)
+	switch {
+	case !ok:
+		return "nothing the harness supplied"
+	case !r.ident:
+		return "no held value"
+	}
+	if h, held := r.held[e.ID]; !held || h != e {
+		return "not held"
+	}
+	return "equal in content to the held element of that identity, but not the element that was handed in (a copy?)"
+}
+
+// sameNote explains a failed Kit.Same between two elements that render alike.
+func (r *heapRun[T]) sameNote(a, b T) string {
+	if r.show(a) == r.show(b) {
+		return " [equal in content, but not the same element: a copy?]"
+	}
+	return ""
+}
+
+// hold and drop keep the reference model in step.
+func (r *heapRun[T]) hold(e Elem, x T) {
+	r.held[e.ID] = e
+	if r.ident {
+		r.heldT[e.ID] = x
+	}
+}
+
+func (r *heapRun[T]) dropAll() {
+	r.held = map[int]Elem{}
+	r.heldT = map[int]T{}
+}
+
+// newElem makes the next element: the model's Elem and what the queue is
+// given.  The pointer kinds get a NEW pointer every time, so an element of a
+// value that is already held (a "twin") is deeply equal to the held one and
+// still a different element.
+func (r *heapRun[T]) newElem(v int) (Elem, T) {
+	r.nextID++
+	e := Elem{V: v, ID: r.nextID}
+	if _, twin := r.heldWithValue(v); twin {
+		r.twins++
+	}
+	return e, r.kit.Make(e.V, e.ID)
+}
+
+// libCmp wraps the current comparison for the queue's element type.
+func (r *heapRun[T]) libCmp() func(a, b T) int {
+	c, k := r.cmp, r.kit
+	return func(a, b T) int {
+		ea, oka := conv(k, a, false)
+		eb, okb := conv(k, b, false)
+		if !oka || !okb {
+			if r.cbBad == "" {
+				r.cbBad = fmt.Sprintf("the comparison function was called with (%s, %s)", show(k, a), show(k, b))
+			}
+			return 0
+		}
+		return c(ea, eb)
+	}
+}
 
 // minimal reports whether e is minimal among the held elements (e included).
-func (r *heapRun) minimalAmong(e Elem, held map[int]Elem) (Elem, bool) {
+func (r *heapBook) minimalAmong(e Elem, held map[int]Elem) (Elem, bool) {
 	for _, x := range held {
 		if r.cmp(x, e) < 0 {
 			// report the smallest witness deterministically
@@ -153,7 +327,7 @@ func (r *heapRun) minimalAmong(e Elem, held map[int]Elem) (Elem, bool) {
 
 // beyondMax returns a value that orders at or after every held element under
 // the current comparison (for "safe" adds that cannot swap).
-func (r *heapRun) beyondMax(delta int) int {
+func (r *heapBook) beyondMax(delta int) int {
 	if r.custom {
 		for v := -3000; v <= 3000; v++ {
 			ok := true
@@ -189,7 +363,7 @@ func isPow2Minus1(n int) bool { return (n+1)&n == 0 }
 
 // orderFailure handles a failure of the minimality clause: strict outside the
 // exposure of a known finding, otherwise explained by a deviation model or not.
-func (r *heapRun) orderFailure(msg string) string {
+func (r *heapBook) orderFailure(msg string) string {
 	if r.o.NoTriage || (!r.expF1 && !r.expF2) {
 		return msg
 	}
@@ -221,52 +395,90 @@ func (r *heapRun) orderFailure(msg string) string {
 }
 
 // syncDevs compares every deviation model with the real queue's array order.
-func (r *heapRun) syncDevs(real []Elem) {
+func (r *heapBook) syncDevs(real []Elem) {
 	for _, d := range r.devs {
-		if d.alive && !sameSeq(d.Data, real) {
+		if d.alive && !sameSeq(d.Data, real, r.ident) {
 			d.alive = false
 		}
 	}
 }
 
+// census checks that xs (what Each has yielded, or Peek at every offset) are
+// exactly the held elements, each once, and returns them as Elems.  The
+// caller has compared the lengths.
+func (r *heapRun[T]) census(what string, xs []T) ([]Elem, string) {
+	out := make([]Elem, len(xs))
+	if !r.ident {
+		left := make(map[int]int, len(xs))
+		for _, h := range r.held {
+			left[h.V]++
+		}
+		for i, x := range xs {
+			e, ok := conv(r.kit, x, false)
+			if !ok || left[e.V] == 0 {
+				return nil, r.errf("%s shows %s at offset %d, which is not held or not that often (held: %s)", what, r.show(x), i, r.heldStr())
+			}
+			left[e.V]--
+			out[i] = e
+		}
+		return out, ""
+	}
+	seen := make(map[int]bool, len(xs))
+	for i, x := range xs {
+		e, ok := r.known(x)
+		if !ok || seen[e.ID] {
+			why := "already shown at another offset"
+			if !ok {
+				why = r.whyNot(x)
+			}
+			return nil, r.errf("%s shows %s at offset %d, which is %s (held: %s)", what, r.show(x), i, why, r.heldStr())
+		}
+		seen[e.ID] = true
+		out[i] = e
+	}
+	return out, ""
+}
+
 // after is the oracle run after every op.
-func (r *heapRun) after() string {
-	real := r.contents()
+func (r *heapRun[T]) after() string {
+	realT := r.contents()
 	if r.cbBad != "" {
 		return r.errf("%s", r.cbBad)
 	}
-	if got := r.q.Len(); got != len(r.held) || len(real) != len(r.held) {
-		return r.errf("Len = %d, Each yields %d, reference holds %d", got, len(real), len(r.held))
+	if got := r.q.Len(); got != len(r.held) || len(realT) != len(r.held) {
+		return r.errf("Len = %d, Each yields %d, reference holds %d", got, len(realT), len(r.held))
 	}
 	if r.q.IsEmpty() != (len(r.held) == 0) {
 		return r.errf("IsEmpty = %v with %d elements held", r.q.IsEmpty(), len(r.held))
 	}
-	seen := map[int]bool{}
-	for i, e := range real {
-		h, ok := r.held[e.ID]
-		if !ok || h != e {
-			return r.errf("Each yields %v at offset %d, which is not held (held: %s)", e, i, r.heldStr())
-		}
-		if seen[e.ID] {
-			return r.errf("Each yields %v twice", e)
-		}
-		seen[e.ID] = true
+	real, msg := r.census("Each", realT)
+	if msg != "" {
+		return msg
 	}
 	// Peek(0..Len-1) enumerates exactly the held elements, each once (the
 	// order at offsets > 0 is unspecified, so it is not compared with Each).
-	pseen := map[int]bool{}
-	for i := range real {
+	peeked := make([]T, len(realT))
+	for i := range realT {
 		p, ok := r.q.Peek(i)
 		if !ok {
-			return r.errf("Peek(%d) reports false with Len %d", i, len(real))
+			return r.errf("Peek(%d) reports false with Len %d", i, len(realT))
 		}
-		if h, held := r.held[p.ID]; !held || h != p || pseen[p.ID] {
-			return r.errf("Peek(%d) = %v which is not held or was already shown at another offset (held: %s)", i, p, r.heldStr())
-		}
-		pseen[p.ID] = true
+		peeked[i] = p
 	}
-	if p, ok := r.q.Peek(len(real)); ok {
-		return r.errf("Peek(Len) = (%v,true), want false", p)
+	sameOrder := true // the usual case: Peek walks the array as Each does, one census covers both
+	for i := range peeked {
+		if !r.kit.Same(peeked[i], realT[i]) {
+			sameOrder = false
+			break
+		}
+	}
+	if !sameOrder {
+		if _, msg := r.census("Peek", peeked); msg != "" {
+			return msg
+		}
+	}
+	if p, ok := r.q.Peek(len(realT)); ok {
+		return r.errf("Peek(Len) = (%s,true), want false", r.show(p))
 	}
 	r.syncDevs(real)
 	if len(real) > r.maxLen {
@@ -275,34 +487,54 @@ func (r *heapRun) after() string {
 	// Front is minimal
 	f := r.q.Front()
 	if len(real) == 0 {
-		if f != (Elem{}) {
-			return r.errf("Front of an empty queue = %v, want zero", f)
+		if !isZero(f) {
+			return r.errf("Front of an empty queue = %s, want zero", r.show(f))
 		}
 	} else {
-		if p0, _ := r.q.Peek(0); f != p0 {
-			return r.errf("Front = %v but Peek(0) = %v", f, p0)
+		if !r.kit.Same(f, peeked[0]) {
+			return r.errf("Front = %s but Peek(0) = %s%s", r.show(f), r.show(peeked[0]), r.sameNote(f, peeked[0]))
 		}
-		if w, ok := r.minimalAmong(f, r.held); !ok {
-			if m := r.orderFailure(r.errf("Front = %v is not minimal: %v is held and orders before it (desc=%v)", f, w, r.descNow)); m != "" {
+		fe, _ := r.known(f)
+		if w, ok := r.minimalAmong(fe, r.held); !ok {
+			if m := r.orderFailure(r.errf("Front = %s is not minimal: %s is held and orders before it (desc=%v)", r.show(f), r.vstr(w), r.descNow)); m != "" {
 				return m
 			}
 		}
 	}
-	if r.checkPos && r.cbOn {
+	if r.checkPos && r.cbOn && r.ident {
 		for id := range r.held {
 			if !r.tracked[id] {
 				continue
 			}
 			p := r.lastPos[id]
-			if e, ok := r.q.Peek(p); !ok || e.ID != id {
-				return r.errf("element #%d was last reported at position %d, but Peek(%d) = (%v,%v); real order %v", id, p, p, e, ok, real)
+			if x, ok := r.q.Peek(p); !ok || r.idOf(x) != id {
+				return r.errf("element #%d was last reported at position %d, but Peek(%d) = (%s,%v); real order %s", id, p, p, r.show(x), ok, r.seqStr(real))
+			}
+		}
+	}
+	if r.checkPos && r.cbOn && !r.ident {
+		// Without identities the clause is read by position: every placement
+		// of an element is reported, so the last report that named a position
+		// (since reports are on and the position exists) is about the element
+		// that is there now.
+		for p, e := range real {
+			if v, ok := r.shadow[p]; ok && v != e.V {
+				return r.errf("the last report for position %d named the value %d, but Peek(%d) = %d; real order %s", p, v, p, e.V, r.seqStr(real))
 			}
 		}
 	}
 	return ""
 }
 
-func (r *heapRun) heldStr() string {
+// idOf is the ID of x, or one that no element has.
+func (r *heapRun[T]) idOf(x T) int {
+	if e, ok := conv(r.kit, x, true); ok {
+		return e.ID
+	}
+	return math.MinInt
+}
+
+func (r *heapBook) heldStr() string {
 	var xs []Elem
 	for _, e := range r.held {
 		xs = append(xs, e)
@@ -314,9 +546,18 @@ func (r *heapRun) heldStr() string {
 	return fmt.Sprint(xs)
 }
 
-func (r *heapRun) callback(e Elem, pos int) {
+func (r *heapRun[T]) callback(x T, pos int) {
+	e, ok := conv(r.kit, x, true)
 	if !r.cbOn {
-		r.cbBad = fmt.Sprintf("update callback invoked for %v after it was removed with Update(nil)", e)
+		r.cbBad = fmt.Sprintf("update callback invoked for %s after it was removed with Update(nil)", r.show(x))
+		return
+	}
+	if !ok {
+		r.cbBad = fmt.Sprintf("update callback invoked for %s at position %d", r.show(x), pos)
+		return
+	}
+	if !r.ident {
+		r.shadow[pos] = e.V
 		return
 	}
 	r.lastPos[e.ID] = pos
@@ -326,8 +567,9 @@ func (r *heapRun) callback(e Elem, pos int) {
 
 // customOrder returns one of the less regular total preorders used by the
 // "reorderTo" op: by distance from a pivot, by (value mod 3, value), or "the
-// current front stays in front and everything else is reversed".
-func (r *heapRun) customOrder(sel int) func(a, b Elem) int {
+// current front (value f, if there is one) stays in front and everything else
+// is reversed".
+func customOrder(sel int, f int, hasFront bool) func(a, b Elem) int {
 	c3 := func(x, y int) int {
 		switch {
 		case x < y:
@@ -356,12 +598,8 @@ func (r *heapRun) customOrder(sel int) func(a, b Elem) int {
 			return c3(a.V, b.V)
 		}
 	}
-	f, any := 0, false
-	if top, ok := r.q.Peek(0); ok {
-		f, any = top.V, true
-	}
 	return func(a, b Elem) int {
-		if any {
+		if hasFront {
 			switch {
 			case a.V == f && b.V == f:
 				return 0
@@ -375,7 +613,7 @@ func (r *heapRun) customOrder(sel int) func(a, b Elem) int {
 	}
 }
 
-func (r *heapRun) setCmp(descending bool) {
+func (r *heapBook) setCmp(descending bool) {
 	r.custom = false
 	r.descNow = descending
 	switch {
@@ -390,9 +628,9 @@ func (r *heapRun) setCmp(descending bool) {
 	}
 }
 
-func (r *heapRun) doPop(i int, viaRemove bool) string {
+func (r *heapRun[T]) doPop(i int, viaRemove bool) string {
 	n := len(r.held)
-	var want Elem
+	var want T
 	var wantOK bool
 	if i < n {
 		want, wantOK = r.q.Peek(i)
@@ -407,7 +645,7 @@ func (r *heapRun) doPop(i int, viaRemove bool) string {
 		r.interiorRemoves++
 		r.pendingDisturb, r.popsSinceDisturb = true, 0
 	}
-	var got Elem
+	var got T
 	var ok bool
 	if viaRemove {
 		got, ok = r.q.Remove(i)
@@ -418,21 +656,21 @@ func (r *heapRun) doPop(i int, viaRemove bool) string {
 		return r.errf("reports ok=%v with Len %d, offset %d", ok, n, i)
 	}
 	if !ok {
-		if got != (Elem{}) {
-			return r.errf("returned %v with ok=false, want zero", got)
+		if !isZero(got) {
+			return r.errf("returned %s with ok=false, want zero", r.show(got))
 		}
 		return ""
 	}
-	if got != want {
-		return r.errf("removed %v but Peek(%d) had shown %v", got, i, want)
+	if !r.kit.Same(got, want) {
+		return r.errf("removed %s but Peek(%d) had shown %s%s", r.show(got), i, r.show(want), r.sameNote(got, want))
 	}
-	h, held := r.held[got.ID]
-	if !held || h != got {
-		return r.errf("returned %v which is not held (held: %s)", got, r.heldStr())
+	ge, held := r.known(got)
+	if !held {
+		return r.errf("returned %s which is %s (held: %s)", r.show(got), r.whyNot(got), r.heldStr())
 	}
 	if i == 0 {
-		if w, ok := r.minimalAmong(got, r.held); !ok {
-			if m := r.orderFailure(r.errf("returned %v, but %v is held and orders before it (desc=%v)", got, w, r.descNow)); m != "" {
+		if w, ok := r.minimalAmong(ge, r.held); !ok {
+			if m := r.orderFailure(r.errf("returned %s, but %s is held and orders before it (desc=%v)", r.show(got), r.vstr(w), r.descNow)); m != "" {
 				return m
 			}
 		}
@@ -443,8 +681,19 @@ func (r *heapRun) doPop(i int, viaRemove bool) string {
 			}
 		}
 	}
-	delete(r.held, got.ID)
-	delete(r.tracked, got.ID)
+	if r.ident {
+		delete(r.held, ge.ID)
+		delete(r.heldT, ge.ID)
+		delete(r.tracked, ge.ID)
+	} else {
+		id, _ := r.heldWithValue(ge.V)
+		delete(r.held, id)
+		for p := range r.shadow { // the positions from the new length on are gone
+			if p >= n-1 {
+				delete(r.shadow, p)
+			}
+		}
+	}
 	for _, d := range r.devs {
 		if d.alive && i < len(d.Data) {
 			d.Pop(i)
@@ -453,14 +702,14 @@ func (r *heapRun) doPop(i int, viaRemove bool) string {
 	return ""
 }
 
-func (r *heapRun) doAdd(v int) string {
-	e := r.newElem(v)
+func (r *heapRun[T]) doAdd(v int) string {
+	e, x := r.newElem(v)
 	n := len(r.held)
 	// F1 exposure: the add can swap through an even slot unless it is a new
 	// maximum (no swap at all) or lands in slot 2^k-1 (path of odd slots).
 	isMax := true
-	for _, x := range r.held {
-		if r.cmp(e, x) < 0 {
+	for _, h := range r.held {
+		if r.cmp(e, h) < 0 {
 			isMax = false
 			break
 		}
@@ -468,14 +717,18 @@ func (r *heapRun) doAdd(v int) string {
 	if !isMax && !isPow2Minus1(n) {
 		r.expF1 = true
 	}
-	pos := r.q.Add(e)
-	r.held[e.ID] = e
-	if got, ok := r.q.Peek(pos); !ok || got != e {
-		return r.errf("Add(%v) returned position %d, but Peek(%d) = (%v,%v)", e, pos, pos, got, ok)
+	pos := r.q.Add(x)
+	r.hold(e, x)
+	if got, ok := r.q.Peek(pos); !ok || !r.kit.Same(got, x) {
+		return r.errf("Add(%s) returned position %d, but Peek(%d) = (%s,%v)%s", r.vstr(e), pos, pos, r.show(got), ok, r.sameNote(got, x))
 	}
 	if r.cbOn && r.checkPos {
-		if !r.tracked[e.ID] || r.lastPos[e.ID] != pos {
-			return r.errf("Add(%v) returned %d but the last reported position is %d (reported=%v)", e, pos, r.lastPos[e.ID], r.tracked[e.ID])
+		if r.ident {
+			if !r.tracked[e.ID] || r.lastPos[e.ID] != pos {
+				return r.errf("Add(%s) returned %d but the last reported position is %d (reported=%v)", r.vstr(e), pos, r.lastPos[e.ID], r.tracked[e.ID])
+			}
+		} else if sv, ok := r.shadow[pos]; !ok || sv != v {
+			return r.errf("Add(%d) returned %d but the last report for that position names %d (reported=%v)", v, pos, sv, ok)
 		}
 	}
 	for _, d := range r.devs {
@@ -486,7 +739,52 @@ func (r *heapRun) doAdd(v int) string {
 	return ""
 }
 
-func (r *heapRun) apply(op HOp) string {
+// doSet replaces the contents with new elements of the values vs.
+func (r *heapRun[T]) doSet(vs []int) string {
+	n := len(r.held)
+	var es []Elem
+	var xs []T
+	for _, v := range vs {
+		e, x := r.newElem(v)
+		es, xs = append(es, e), append(xs, x)
+	}
+	for id := range r.tracked {
+		delete(r.tracked, id)
+	}
+	r.shadow = map[int]int{}
+	arg := append([]T(nil), xs...)
+	if ret := r.q.Set(arg); ret != r.q {
+		return r.errf("Set does not return its receiver")
+	}
+	for i := range arg { // Set must copy, not alias: scribble on the argument
+		arg[i] = r.kit.Make(-1<<40, -1<<40)
+	}
+	r.dropAll()
+	for i, e := range es {
+		r.hold(e, xs[i])
+	}
+	if r.cbOn && r.checkPos {
+		for p, e := range es {
+			if r.ident && !r.tracked[e.ID] {
+				return r.errf("Set did not report a position for %v", e)
+			}
+			if _, ok := r.shadow[p]; !r.ident && !ok {
+				return r.errf("Set of %d elements did not report any element at position %d", len(es), p)
+			}
+		}
+	}
+	for _, d := range r.devs {
+		if d.alive {
+			d.Set(es)
+		}
+	}
+	if n > 0 {
+		r.pendingDisturb, r.popsSinceDisturb = true, 0
+	}
+	return ""
+}
+
+func (r *heapRun[T]) apply(op HOp) string {
 	n := len(r.held)
 	switch op.Kind {
 	case "add":
@@ -542,6 +840,22 @@ func (r *heapRun) apply(op HOp) string {
 		}
 		return r.doPop([]int{0, 1, 2, n - 1}[op.A%4], true)
 	case "removeElem": // by the reported position of a tracked element (C06)
+		if !r.ident { // by a position that a report has named
+			var ps []int
+			for p := range r.shadow {
+				ps = append(ps, p)
+			}
+			if len(ps) == 0 || !r.cbOn {
+				return ""
+			}
+			sort.Ints(ps)
+			p := ps[op.A%len(ps)]
+			x, ok := r.q.Peek(p)
+			if e, isElem := conv(r.kit, x, false); !ok || !isElem || e.V != r.shadow[p] {
+				return r.errf("the value %d was reported at %d, Peek shows (%s,%v)", r.shadow[p], p, r.show(x), ok)
+			}
+			return r.doPop(p, true)
+		}
 		var ids []int
 		for id := range r.held {
 			if r.tracked[id] {
@@ -554,8 +868,8 @@ func (r *heapRun) apply(op HOp) string {
 		sort.Ints(ids)
 		id := ids[op.A%len(ids)]
 		p := r.lastPos[id]
-		if e, ok := r.q.Peek(p); !ok || e.ID != id {
-			return r.errf("element #%d reported at %d, Peek shows (%v,%v)", id, p, e, ok)
+		if x, ok := r.q.Peek(p); !ok || r.idOf(x) != id {
+			return r.errf("element #%d reported at %d, Peek shows (%s,%v)", id, p, r.show(x), ok)
 		}
 		if r.moves[id] >= 2 {
 			r.ntPos = true
@@ -569,61 +883,46 @@ func (r *heapRun) apply(op HOp) string {
 			return ""
 		}
 		i := op.A % (n + 3)
-		e, ok := r.q.Peek(i)
+		x, ok := r.q.Peek(i)
 		if ok != (i < n) {
 			return r.errf("Peek(%d) ok=%v with Len %d", i, ok, n)
 		}
 		if ok {
-			if h, held := r.held[e.ID]; !held || h != e {
-				return r.errf("Peek(%d) = %v which is not held", i, e)
+			if _, held := r.known(x); !held {
+				return r.errf("Peek(%d) = %s which is %s", i, r.show(x), r.whyNot(x))
 			}
-		} else if e != (Elem{}) {
-			return r.errf("Peek(%d) = (%v,false), want zero", i, e)
+		} else if !isZero(x) {
+			return r.errf("Peek(%d) = (%s,false), want zero", i, r.show(x))
 		}
 		return ""
 	case "set":
-		var es []Elem
-		for _, v := range op.Vs {
-			es = append(es, r.newElem(v))
+		return r.doSet(op.Vs)
+	case "setSame": // new elements with the values of the current contents, slot by slot (or mirrored)
+		var vs []int
+		for _, x := range r.contents() {
+			e, _ := conv(r.kit, x, false)
+			vs = append(vs, e.V)
 		}
-		for id := range r.tracked {
-			delete(r.tracked, id)
-		}
-		arg := append([]Elem(nil), es...)
-		if ret := r.q.Set(arg); ret != r.q {
-			return r.errf("Set does not return its receiver")
-		}
-		for i := range arg { // Set must copy, not alias: scribble on the argument
-			arg[i] = Elem{V: -1 << 40, ID: -1 << 40}
-		}
-		r.held = map[int]Elem{}
-		for _, e := range es {
-			r.held[e.ID] = e
-		}
-		if r.cbOn && r.checkPos {
-			for _, e := range es {
-				if !r.tracked[e.ID] {
-					return r.errf("Set did not report a position for %v", e)
-				}
+		if op.A%3 == 2 {
+			for i, j := 0, len(vs)-1; i < j; i, j = i+1, j-1 {
+				vs[i], vs[j] = vs[j], vs[i]
 			}
 		}
-		for _, d := range r.devs {
-			if d.alive {
-				d.Set(es)
-			}
-		}
-		if n > 0 {
-			r.pendingDisturb, r.popsSinceDisturb = true, 0
-		}
-		return ""
+		return r.doSet(vs)
 	case "reorder", "reorderTo":
 		if op.Kind == "reorderTo" {
-			r.cmp = r.customOrder(op.A)
+			f, hasFront := 0, false
+			if top, ok := r.q.Peek(0); ok {
+				if e, ok := conv(r.kit, top, false); ok {
+					f, hasFront = e.V, true
+				}
+			}
+			r.cmp = customOrder(op.A, f, hasFront)
 			r.custom = true
 		} else {
 			r.setCmp(!r.descNow)
 		}
-		r.q.Reorder(r.cmp)
+		r.q.Reorder(r.libCmp())
 		for _, d := range r.devs {
 			d.Cmp = r.cmp
 			if d.alive {
@@ -637,8 +936,9 @@ func (r *heapRun) apply(op HOp) string {
 		return ""
 	case "clear":
 		r.q.Clear()
-		r.held = map[int]Elem{}
+		r.dropAll()
 		r.tracked = map[int]bool{}
+		r.shadow = map[int]int{}
 		for _, d := range r.devs {
 			d.Data = d.Data[:0]
 		}
@@ -649,7 +949,7 @@ func (r *heapRun) apply(op HOp) string {
 		}
 		j := op.A%n + 1
 		calls := 0
-		r.q.Each(func(Elem) bool { calls++; return calls < j })
+		r.q.Each(func(T) bool { calls++; return calls < j })
 		if calls != j {
 			return r.errf("Each made %d callbacks after being told to stop at %d", calls, j)
 		}
@@ -658,6 +958,7 @@ func (r *heapRun) apply(op HOp) string {
 		if op.A%2 == 0 {
 			r.cbOn = false
 			r.tracked = map[int]bool{}
+			r.shadow = map[int]int{}
 			if ret := r.q.Update(nil); ret != r.q {
 				return r.errf("Update does not return its receiver")
 			}
@@ -674,12 +975,12 @@ func (r *heapRun) apply(op HOp) string {
 
 // drain pops k elements (all when final) and checks the sequence is
 // non-decreasing under the current comparison.
-func (r *heapRun) drain(k int, final bool) string {
+func (r *heapRun[T]) drain(k int, final bool) string {
 	var prev Elem
 	havePrev := false
 	for i := 0; (final && len(r.held) > 0) || (!final && i < k); i++ {
 		before := len(r.held)
-		top, ok := r.q.Peek(0)
+		topT, ok := r.q.Peek(0)
 		if msg := r.doPop(0, false); msg != "" {
 			return msg
 		}
@@ -689,8 +990,9 @@ func (r *heapRun) drain(k int, final bool) string {
 		if !ok {
 			return r.errf("drain: Peek(0) false with %d held", before)
 		}
+		top, _ := conv(r.kit, topT, true) // doPop has vetted it
 		if havePrev && r.cmp(top, prev) < 0 {
-			if m := r.orderFailure(r.errf("drain yields %v after %v: not non-decreasing (desc=%v)", top, prev, r.descNow)); m != "" {
+			if m := r.orderFailure(r.errf("drain yields %s after %s: not non-decreasing (desc=%v)", r.show(topT), r.vstr(prev), r.descNow)); m != "" {
 				return m
 			}
 		}
@@ -702,22 +1004,73 @@ func (r *heapRun) drain(k int, final bool) string {
 	return ""
 }
 
-func runHeap(c HeapCase, checkPos bool, o *vk.Obs) (*heapRun, string) {
-	r := &heapRun{c: c, checkPos: checkPos, o: o, held: map[int]Elem{}, knownHits: map[string]int{},
-		lastPos: map[int]int{}, tracked: map[int]bool{}, moves: map[int]int{}, step: -1}
+// vstr renders an Elem that came out of the queue the way show does.
+func (r *heapBook) vstr(e Elem) string {
+	if !r.ident {
+		return strconv.Itoa(e.V)
+	}
+	return e.String()
+}
+
+// seqStr renders an array order (the beginning of a long one).
+func (r *heapBook) seqStr(es []Elem) string {
+	var sb strings.Builder
+	sb.WriteByte('[')
+	for i, e := range es {
+		if i == 40 {
+			fmt.Fprintf(&sb, " …(%d)", len(es))
+			break
+		}
+		if i > 0 {
+			sb.WriteByte(' ')
+		}
+		sb.WriteString(r.vstr(e))
+	}
+	sb.WriteByte(']')
+	return sb.String()
+}
+
+// runHeap runs the history on a queue of the case's element kind.
+func runHeap(c HeapCase, checkPos bool, o *vk.Obs) (*heapBook, string) {
+	switch c.Elem {
+	case "":
+		return runHeapT(c, checkPos, o, ownKit())
+	case elem.Int:
+		return runHeapT(c, checkPos, o, elem.IntKit())
+	case elem.Str:
+		return runHeapT(c, checkPos, o, elem.StrKit())
+	case elem.Wide:
+		return runHeapT(c, checkPos, o, elem.WideKit())
+	case elem.Ptr:
+		elem.ResetPtr()
+		return runHeapT(c, checkPos, o, elem.PtrKit())
+	case elem.Bytes:
+		return runHeapT(c, checkPos, o, elem.BytesKit())
+	case elem.Any:
+		elem.ResetPtr()
+		return runHeapT(c, checkPos, o, elem.AnyKit())
+	}
+	return nil, fmt.Sprintf("VK-INFRA unknown element kind %q", c.Elem)
+}
+
+func runHeapT[T any](c HeapCase, checkPos bool, o *vk.Obs, kit elem.Kit[T]) (*heapBook, string) {
+	b := &heapBook{c: c, checkPos: checkPos, o: o, ident: kit.HasID, held: map[int]Elem{}, knownHits: map[string]int{},
+		lastPos: map[int]int{}, tracked: map[int]bool{}, moves: map[int]int{}, shadow: map[int]int{}, step: -1}
+	r := &heapRun[T]{heapBook: b, kit: kit, heldT: map[int]T{}}
 	r.setCmp(c.Desc)
 	var init []Elem
 	if c.UseData {
-		buf := make([]Elem, 0, len(c.Data)+c.Spare%8)
+		buf := make([]T, 0, len(c.Data)+c.Spare%8)
 		for i, v := range c.Data {
 			e := Elem{V: v, ID: -(i + 1)}
-			buf = append(buf, e)
-			r.held[e.ID] = e
+			x := kit.Make(e.V, e.ID)
+			buf = append(buf, x)
+			init = append(init, e)
+			r.hold(e, x)
 		}
-		init = append([]Elem(nil), buf...)
-		r.q = heapq.NewWithData(r.cmp, buf)
+		r.q = heapq.NewWithData(r.libCmp(), buf)
 	} else {
-		r.q = heapq.New(r.cmp)
+		r.q = heapq.New(r.libCmp())
 	}
 	for _, m := range devheap.Variants(r.cmp) {
 		m.Data = append(m.Data, init...)
@@ -729,26 +1082,27 @@ func runHeap(c HeapCase, checkPos bool, o *vk.Obs) (*heapRun, string) {
 		r.q.Update(r.callback)
 	}
 	if msg := r.after(); msg != "" {
-		return r, msg
+		return b, msg
 	}
 	for i, op := range c.Ops {
 		r.step = i
 		if msg := r.apply(op); msg != "" {
-			return r, msg
+			return b, msg
 		}
 		if msg := r.after(); msg != "" {
-			return r, msg
+			return b, msg
 		}
 	}
 	r.step = len(c.Ops)
 	if msg := r.drain(0, true); msg != "" {
-		return r, msg
+		return b, msg
 	}
-	return r, ""
+	return b, ""
 }
 
-func classify(r *heapRun, c HeapCase, o *vk.Obs) {
+func classify(r *heapBook, c HeapCase, o *vk.Obs) {
 	o.Class("mode=" + c.Mode)
+	o.Class(kindLabel(c.Elem))
 	o.ClassIf(r.expF1, "exposed_F1")
 	o.ClassIf(r.expF2, "exposed_F2")
 	o.ClassIf(!r.expF1 && !r.expF2, "unexposed(strict)")
@@ -759,6 +1113,7 @@ func classify(r *heapRun, c HeapCase, o *vk.Obs) {
 	o.ClassIf(r.interiorRemoves > 0, "interior_remove")
 	o.ClassIf(r.reorders > 0, "midlife_reorder")
 	o.ClassIf(c.UseData, "NewWithData")
+	o.ClassIf(r.twins > 0 && (c.Elem == elem.Ptr || c.Elem == elem.Any), "new_pointer_to_equal_pointee")
 	for k, v := range r.knownHits {
 		if v > 0 {
 			o.Class("known_hit_" + k)
@@ -802,48 +1157,109 @@ type SortCase struct {
 	// Spare is the capacity beyond the length of the slice handed to Sort.
 	Big   int `json:"big,omitempty"`
 	Spare int `json:"spare,omitempty"`
+	// Elem is the element kind of the slice ("" = Elem itself), see ElemKinds.
+	Elem string `json:"elem,omitempty"`
 }
 
-func runSort(c SortCase, o *vk.Obs) string {
+func runSort(c SortCase, o *vk.Obs) string { return sortCase(c, o, true) }
+
+// sortCase sorts a slice of the case's element kind.  reset says whether the
+// identities of the pointer kinds may be forgotten first; the exhaustive leg
+// runs its cases concurrently and must not.
+func sortCase(c SortCase, o *vk.Obs, reset bool) string {
+	if reset && (c.Elem == elem.Ptr || c.Elem == elem.Any) {
+		elem.ResetPtr()
+	}
+	switch c.Elem {
+	case "":
+		return runSortT(c, o, ownKit())
+	case elem.Int:
+		return runSortT(c, o, elem.IntKit())
+	case elem.Str:
+		return runSortT(c, o, elem.StrKit())
+	case elem.Wide:
+		return runSortT(c, o, elem.WideKit())
+	case elem.Ptr:
+		return runSortT(c, o, elem.PtrKit())
+	case elem.Bytes:
+		return runSortT(c, o, elem.BytesKit())
+	case elem.Any:
+		return runSortT(c, o, elem.AnyKit())
+	}
+	return fmt.Sprintf("VK-INFRA unknown element kind %q", c.Elem)
+}
+
+func runSortT[T any](c SortCase, o *vk.Obs, kit elem.Kit[T]) string {
 	vs := c.Vs
 	for i := 0; i < c.Big; i++ {
 		vs = append(vs[:len(vs):len(vs)], (i*7919%1009)%37)
 	}
-	in := make([]Elem, len(vs))
+	in := make([]T, len(vs))
 	for i, v := range vs {
-		in[i] = Elem{V: v, ID: i + 1}
+		in[i] = kit.Make(v, i+1)
 	}
 	cmp := asc
 	if c.Desc {
 		cmp = desc
 	}
-	var arg []Elem
-	if c.Vs != nil {
-		arg = append(make([]Elem, 0, len(in)+2+c.Spare), in...)
+	cmpBad := ""
+	cmpT := func(a, b T) int {
+		ea, oka := conv(kit, a, false)
+		eb, okb := conv(kit, b, false)
+		if !oka || !okb {
+			if cmpBad == "" {
+				cmpBad = fmt.Sprintf("the comparison function was called with (%s, %s)", show(kit, a), show(kit, b))
+			}
+			return 0
+		}
+		return cmp(ea, eb)
 	}
-	heapq.Sort(cmp, arg)
+	var arg []T
+	if c.Vs != nil {
+		arg = append(make([]T, 0, len(in)+2+c.Spare), in...)
+	}
+	heapq.Sort(cmpT, arg)
+	what := fmt.Sprintf("Sort(%s desc=%v", briefInts(vs), c.Desc)
+	if c.Elem != "" {
+		what += " " + kindLabel(c.Elem)
+	}
+	if cmpBad != "" {
+		return fmt.Sprintf("%s): %s", what, cmpBad)
+	}
 	if len(arg) != len(in) {
 		return fmt.Sprintf("Sort changed the length from %d to %d", len(in), len(arg))
 	}
+	left := map[int]int{} // kinds without identity: the multiset of the values
+	for _, v := range vs {
+		left[v]++
+	}
 	seen := map[int]bool{}
-	for i, e := range arg {
-		if e.ID < 1 || e.ID > len(in) || in[e.ID-1] != e || seen[e.ID] {
-			return fmt.Sprintf("Sort(%s desc=%v): output[%d] = %v is not a (fresh) input element; output %s", briefInts(vs), c.Desc, i, e, briefElems(arg))
+	var prev Elem
+	dups := false
+	for i, x := range arg {
+		e, ok := conv(kit, x, true)
+		if kit.HasID {
+			ok = ok && e.ID >= 1 && e.ID <= len(in) && e.V == vs[e.ID-1] && kit.Same(in[e.ID-1], x) && !seen[e.ID]
+		} else {
+			ok = ok && left[e.V] > 0
+		}
+		if !ok {
+			return fmt.Sprintf("%s): output[%d] = %s is not a (fresh) input element; output %s", what, i, show(kit, x), briefOut(kit, arg))
 		}
 		seen[e.ID] = true
-		if i > 0 && cmp(arg[i-1], e) > 0 {
-			return fmt.Sprintf("Sort(%s desc=%v, cap %d): output not sorted at %d: %v then %v; output %s", briefInts(vs), c.Desc, cap(arg), i, arg[i-1], e, briefElems(arg))
+		left[e.V]--
+		if i > 0 && cmp(prev, e) > 0 {
+			return fmt.Sprintf("%s, cap %d): output not sorted at %d: %s then %s; output %s", what, cap(arg), i, show(kit, arg[i-1]), show(kit, x), briefOut(kit, arg))
 		}
-	}
-	dups := false
-	for i := 1; i < len(arg); i++ {
-		if arg[i].V == arg[i-1].V {
+		if i > 0 && prev.V == e.V {
 			dups = true
 		}
+		prev = e
 	}
 	if len(arg) >= 4 && dups {
 		o.NonTrivial()
 	}
+	o.Class(kindLabel(c.Elem))
 	o.ClassIf(len(arg) < 2, "len<2")
 	o.ClassIf(cap(arg) >= 256, "cap>=256")
 	o.ClassIf(dups, "has_duplicates")
@@ -857,9 +1273,22 @@ func briefInts(v []int) string {
 	return fmt.Sprint(v)
 }
 
-func briefElems(v []Elem) string {
-	if len(v) > 24 {
-		return fmt.Sprintf("%v…(%d)", v[:24], len(v))
+// briefOut renders Sort's output through show.
+func briefOut[T any](k elem.Kit[T], v []T) string {
+	var sb strings.Builder
+	sb.WriteByte('[')
+	for i, x := range v {
+		if i == 24 {
+			break
+		}
+		if i > 0 {
+			sb.WriteByte(' ')
+		}
+		sb.WriteString(show(k, x))
 	}
-	return fmt.Sprint(v)
+	sb.WriteByte(']')
+	if len(v) > 24 {
+		fmt.Fprintf(&sb, "…(%d)", len(v))
+	}
+	return sb.String()
 }
